@@ -509,6 +509,11 @@ func runC07(p *core.Prog, r *core.Report, tier string) {
 				if isScore(c.Y) && !isScore(c.X) {
 					challenger, running = bo.Y, bo.X
 				}
+				if _, isPhi := running.(*ssa.Phi); !isPhi && core.InLoop(ifi) {
+					// inside a collection loop the responses are compared with something the loop never changes
+					r.Violate("C07.f", fmt.Sprintf("%s|score-comparison#%d|running-best-updated", core.FnKey(f), nScore), p.Pos(bo.Pos()),
+						"the score the responses of this loop are compared with ("+ds.D(running).String()+") is not changed by the loop: after a better response a worse one that arrives later still replaces it")
+				}
 				if phi, ok := running.(*ssa.Phi); ok {
 					fed := false
 					seenP := map[*ssa.Phi]bool{}
